@@ -1,5 +1,5 @@
 (* C10/Run.v — evaluation of the model and of the specification on harness cases. *)
-From Relic Require Import Base.Prelude Base.Val Generated.C10_gen C10.Model C10.Proofs.
+From Relic Require Import Base.Prelude Base.Val Generated.C10_gen C10.Model.
 
 (* the digest used for evaluation: algorithm tag followed by the data (injective; see Properties.hsym_injective) *)
 Definition HR := Hsym.
